@@ -72,6 +72,17 @@ def scalar_catalogue(tier, rnd):
                 cat.append(('int', t, c))
                 if n == 2:
                     cat.append(('int', T('not', 0, [t]), '!' + c))
+    # plain operands of ANOTHER arithmetic type: compared with ==, never converted to the parameter type first
+    # (4294967297 = 2^32 + 1 and 2.5 equal no int; 1.0 and 2LL equal 1 and 2)
+    OTHER = [(T('val', 1000), '4294967297LL'), (T('val', 1001), '2.5'), (T('val', 1), '1.0'), (T('val', 2), '2LL'), (T('val', 1002), '4294967296LL')]
+    for t, c in OTHER:
+        cat.append(('int', t, c))
+        for name in ('any_of', 'all_of', 'none_of'):
+            cat.append(('int', T(name, 0, [t]), 'trompeloeil::%s(%s)' % (name, c)))
+            cat.append(('int', T(name, 0, [t, T('val', 0)]), 'trompeloeil::%s(%s, 0)' % (name, c)))
+            cat.append(('int', T('not', 0, [T(name, 0, [T('ge', 2), t])]), '!trompeloeil::%s(trompeloeil::ge(2), %s)' % (name, c)))
+        cat.append(('struct', T('member', 1, [t]), 'MEMBER_IS(&S::a, %s)' % c))
+        cat.append(('ptr', T('deref', 0, [T('any_of', 0, [t])]), '*trompeloeil::any_of(%s)' % c))
     # explicitly typed set predicates (the first template argument disambiguates overloads)
     for name in ('any_of', 'all_of', 'none_of'):
         cat.append(('int', T(name, 0, [T('val', 0), T('ge', 2)]), 'trompeloeil::%s<int>(0, trompeloeil::ge(2))' % name))
